@@ -395,3 +395,15 @@ Theorem printed_dfa_token p sc bol d m :
     let (r, k) := scan (dview d) (v_start (dview d) (Z.of_N sc - 1) bol) w 0 (0%N, 0%nat) in
     r <> 0%N /\ (1 <= k)%nat /\ Selected (spec_start p sc bol) w r k.
 Proof. exact (C01_token p sc bol (dview d) m). Qed.
+
+(** Non-vacuity for the class theorem: the classes flex computes for [ex_nfa]
+    ({a}, {b}, {x,y,z}, the rest; NUL with the rest) are consistent, a table
+    that puts a and b together is not. *)
+Definition ex_ec (b : byte) : N :=
+  if b =? 97 then 2 else if b =? 98 then 3 else if (120 <=? b) && (b <=? 122) then 4 else 1.
+Definition ex_ec_bad (b : byte) : N :=
+  if (b =? 97) || (b =? 98) then 2 else if (120 <=? b) && (b <=? 122) then 4 else 1.
+
+Example ex_ec_consistent :
+  ec_consistent ex_nfa ex_ec (alphabet 256) = true /\ ec_consistent ex_nfa ex_ec_bad (alphabet 256) = false.
+Proof. vm_compute. split; reflexivity. Qed.
